@@ -252,10 +252,12 @@ def depth_case(r, stream):
 
 
 def overlapping_pair_with_deletion(specs, contig, start, stop) -> bool:
-    """two engine-passing records of one read name that overlap on the reference, one of them with a D / N op"""
+    """two records of one read name that can pass the engine under SOME configuration (duplicates, QC-fails and
+    supplementary records pass when their keep flag is set; only unmapped and secondary records never do) and that
+    overlap on the reference, one of them with a D / N op"""
     byq = {}
     for s in specs:
-        if s.contig != contig or not (s.pos < stop and s.ref_end > start) or (s.flag & 0x704):
+        if s.contig != contig or not (s.pos < stop and s.ref_end > start) or (s.flag & 0x104):
             continue
         if (s.flag & 0x1) and not (s.flag & 0x2):
             continue
